@@ -3,7 +3,8 @@
    re-checked against it.  Nothing else lives here. *)
 From RV.Model Require Import Base Word Limbs Bytes DivRecip DivSmall Redc.
 From RV.Gen Require Import Prim Scalar.
-From RV.Proofs Require Import PfGenScalar.
+From RV.Model Require Add.
+From RV.Proofs Require Import PfGenScalar PfGenAdd.
 
 Theorem GenTie_source_equals_model :
   (forall bits, 0 <= bits -> bits + 63 < B -> g_nlimbs bits = Val (nlimbs bits)) /\
@@ -80,8 +81,45 @@ Proof.
 Qed.
 Print Assumptions GenTie_source_equals_model.
 
+(* src/add.rs end to end: every inherent method of the file (and Uint::masked), as translated from
+   the current source text, equals the model function that C01's theorems are about, for every
+   well-formed Uint<BITS, LIMBS> (LIMBS = nlimbs BITS fits a usize, limb lists of that length) *)
+Definition wfU (bits : Z) (a : list Z) : Prop := length a = nlimbsN bits.
+Theorem GenTie_add_rs : forall bits a b,
+  0 <= bits -> nlimbs bits <= B -> wfU bits a -> wfU bits b ->
+  g_masked bits (nlimbs bits) a = Val (masked bits a) /\
+  g_overflowing_add bits (nlimbs bits) a b = Val (Add.overflowing_add bits a b) /\
+  g_overflowing_sub bits (nlimbs bits) a b = Val (Add.overflowing_sub bits a b) /\
+  g_overflowing_neg bits (nlimbs bits) a = Val (Add.overflowing_neg bits a) /\
+  g_checked_add bits (nlimbs bits) a b = Val (Add.checked_add bits a b) /\
+  g_checked_sub bits (nlimbs bits) a b = Val (Add.checked_sub bits a b) /\
+  g_checked_neg bits (nlimbs bits) a = Val (Add.checked_neg bits a) /\
+  g_saturating_add bits (nlimbs bits) a b = Val (Add.saturating_add bits a b) /\
+  g_saturating_sub bits (nlimbs bits) a b = Val (Add.saturating_sub bits a b) /\
+  g_wrapping_add bits (nlimbs bits) a b = Val (Add.wrapping_add bits a b) /\
+  g_wrapping_sub bits (nlimbs bits) a b = Val (Add.wrapping_sub bits a b) /\
+  g_wrapping_neg bits (nlimbs bits) a = Val (Add.wrapping_neg bits a).
+Proof.
+  intros bits a b H0 HB Ha Hb. unfold wfU in *.
+  exact (conj (g_masked_eq bits a H0 HB Ha)
+        (conj (g_overflowing_add_eq bits a b H0 HB Ha Hb)
+        (conj (g_overflowing_sub_eq bits a b H0 HB Ha Hb)
+        (conj (g_overflowing_neg_eq bits a H0 HB Ha)
+        (conj (g_checked_add_eq bits a b H0 HB Ha Hb)
+        (conj (g_checked_sub_eq bits a b H0 HB Ha Hb)
+        (conj (g_checked_neg_eq bits a H0 HB Ha)
+        (conj (g_saturating_add_eq bits a b H0 HB Ha Hb)
+        (conj (g_saturating_sub_eq bits a b H0 HB Ha Hb)
+        (conj (g_wrapping_add_eq bits a b H0 HB Ha Hb)
+        (conj (g_wrapping_sub_eq bits a b H0 HB Ha Hb)
+              (g_wrapping_neg_eq bits a H0 HB Ha)))))))))))).
+Qed.
+Print Assumptions GenTie_add_rs.
+
 (* the premises are satisfiable and the generated code computes: reciprocal(2^63) = 2^64 - 1 *)
 Example GenTie_nonvacuous :
   g_reciprocal_mg10 (2 ^ 63) = Val (2 ^ 64 - 1) /\ g_mask 65 = Val 1 /\ g_nlimbs 65 = Val 2 /\
-  g_div_2x1_mg10 (2 ^ 127 - 1) (2 ^ 63) (2 ^ 64 - 1) = Val (2 ^ 64 - 1, 2 ^ 63 - 1).
+  g_div_2x1_mg10 (2 ^ 127 - 1) (2 ^ 63) (2 ^ 64 - 1) = Val (2 ^ 64 - 1, 2 ^ 63 - 1) /\
+  g_overflowing_add 65 2 [2 ^ 64 - 1; 1] [1; 0] = Val ([0; 0], true) /\
+  g_checked_sub 65 2 [0; 0] [1; 0] = Val None.
 Proof. vm_compute. repeat split. Qed.
